@@ -78,6 +78,8 @@ def to_world_action(world, bind, la):
         return [{"a": a, "k": k}]
     if a == "Dup":
         return [{"a": "Dup", "k": k, "m": int(x) - 1}]
+    if a == "SrvError":
+        return [{"a": "SrvSend", "k": k, "msg": {"type": "error", "error": "unprovoked", "orig": {}}}]
     if a == "Swap":
         return [{"a": "SwapS2C", "k": k, "i": int(x) - 1}]
     if a == "Tamper":
